@@ -46,12 +46,13 @@ const (
 	TBBadSignCertV2
 	TBSignedByOtherKey
 	TBGarbage
+	TBRejectBadAlgThenGrant // rejects with failInfo badAlg; would grant a second request (which a conforming client never sends)
 	nTSABehaviours
 )
 
 var tsaBehaviourNames = []string{"valid_granted", "valid_granted_with_mods", "status_rejection", "status_waiting", "status_revocation_warning", "status_revocation_notification",
 	"granted_without_token", "wrong_imprint_digest", "wrong_imprint_algorithm", "wrong_nonce", "nonce_omitted", "certificates_omitted", "tstinfo_version_2",
-	"content_type_not_tstinfo", "corrupted_signature", "message_digest_mismatch", "signing_certificate_v2_missing", "signing_certificate_v2_mismatch", "signed_by_other_key", "garbage"}
+	"content_type_not_tstinfo", "corrupted_signature", "message_digest_mismatch", "signing_certificate_v2_missing", "signing_certificate_v2_mismatch", "signed_by_other_key", "garbage", "rejection_badalg_then_grants_retry"}
 
 // Revocation gate modes.
 const (
@@ -81,6 +82,8 @@ type c15Scenario struct {
 	Agent       bool
 	GenSkew     time.Duration // the authority's clock is off by this much (genTime = now + GenSkew)
 	RootsNil    bool          // the caller names no TSA roots at all (SignRequest.TSARootCAs == nil)
+	PriorSign   bool          // the same envelope object has already signed once, with a valid timestamp
+	StubLatency time.Duration // the stub revocation validator takes this long (fake time)
 }
 
 func profC15Rev() *RevProfile {
@@ -132,6 +135,8 @@ func genC15(t *Tape) *c15Scenario {
 	sc.WithExpiry = t.Bool(30)
 	sc.Agent = t.Bool(30)
 	sc.GenSkew = []time.Duration{0, -2 * time.Hour, -30 * 24 * time.Hour, 2 * time.Hour, 48 * time.Hour}[t.Weighted(60, 15, 10, 8, 7)]
+	sc.PriorSign = t.Bool(15)
+	sc.StubLatency = []time.Duration{0, 50 * time.Millisecond, 400 * time.Millisecond}[t.Weighted(50, 25, 25)]
 	// the TSA chain and its revocation sources
 	rs := &RevScenario{Prof: profC15Rev()}
 	rs.Config = t.Weighted(rs.Prof.ConfigW...)
@@ -189,6 +194,7 @@ func genC15(t *Tape) *c15Scenario {
 type stubValidator struct {
 	vec   []int
 	err   bool
+	lat   time.Duration
 	calls int
 	chain []*x509.Certificate
 }
@@ -196,6 +202,9 @@ type stubValidator struct {
 func (s *stubValidator) ValidateContext(ctx context.Context, o revocation.ValidateContextOptions) ([]*result.CertRevocationResult, error) {
 	s.calls++
 	s.chain = o.CertChain
+	if s.lat > 0 {
+		_ = sleepCtx(ctx, s.lat)
+	}
 	if s.err {
 		return nil, errors.New("sim: revocation validator failure")
 	}
@@ -239,6 +248,8 @@ type c15Obs struct {
 	Panicked  bool
 	PanicVal  any
 	X         *Exchange
+	XRetry    *Exchange
+	PriorErr  string
 	RevObs    *RevObs
 	Stub      *stubValidator
 	RecV      *recValidator
@@ -308,9 +319,23 @@ func (sc *c15Scenario) exec(obs *c15Obs) {
 		embed = []*x509.Certificate{tsaLeaf.X}
 	}
 	otherKey := ka.get("ec256")
-	x := nt.Plan(0, &Exchange{URL: "http://tsa.sim/ts", Kind: "tsa", Latency: sc.Latency, Fault: sc.Fault, ReadCap: 1 << 20,
+	// the request context carries the caller id of the TSA chain's world (the
+	// real revocation validator needs it to find its slots)
+	tsaCaller := w.callerKeyOf(0)
+	var xPrior *Exchange
+	if sc.PriorSign {
+		// an honest grant for the signature this object makes before the measured one
+		xPrior = nt.Plan(tsaCaller, &Exchange{URL: "http://tsa.sim/ts", Kind: "tsa", Latency: 5 * time.Millisecond, ReadCap: 1 << 20,
+			Serve: tsaServeSkew(TBValid, tsaLeaf, embed, otherKey, 0)})
+	}
+	x := nt.Plan(tsaCaller, &Exchange{URL: "http://tsa.sim/ts", Kind: "tsa", Latency: sc.Latency, Fault: sc.Fault, ReadCap: 1 << 20, Prior: xPrior != nil,
 		Serve: tsaServeSkew(sc.Behaviour, tsaLeaf, embed, otherKey, sc.GenSkew)})
 	obs.X = x
+	if sc.Behaviour == TBRejectBadAlgThenGrant {
+		// what a second request would get (a conforming client never sends it)
+		obs.XRetry = nt.Plan(tsaCaller, &Exchange{URL: "http://tsa.sim/ts", Kind: "tsa", Latency: 5 * time.Millisecond, ReadCap: 1 << 20,
+			Serve: tsaServeSkew(TBValid, tsaLeaf, embed, otherKey, 0)})
+	}
 	tsaClient := &http.Client{Transport: nt}
 	if sc.Timeout > 0 {
 		tsaClient.Timeout = sc.Timeout + 500*time.Microsecond
@@ -364,7 +389,7 @@ func (sc *c15Scenario) exec(obs *c15Obs) {
 	}
 	switch sc.RevMode {
 	case RevStub:
-		obs.Stub = &stubValidator{vec: sc.StubVec, err: sc.StubErr}
+		obs.Stub = &stubValidator{vec: sc.StubVec, err: sc.StubErr, lat: sc.StubLatency}
 		req.TSARevocationValidator = obs.Stub
 	case RevReal:
 		obs.RecV = &recValidator{inner: inf.validators[purpose.Timestamping]}
@@ -382,6 +407,25 @@ func (sc *c15Scenario) exec(obs *c15Obs) {
 	if err != nil {
 		obs.Harness = err.Error()
 		return
+	}
+	if xPrior != nil {
+		// the object's earlier life: one honest, timestamped signature
+		prior := *req
+		prior.SigningScheme = signature.SigningSchemeX509
+		prior.Timestamper, prior.TSARootCAs, prior.TSARevocationValidator = timestamper, x509.NewCertPool(), nil
+		prior.TSARootCAs.AddCert(w.Certs[len(w.Certs)-1].C.X)
+		prior.Payload = signature.Payload{ContentType: payloadContentType, Content: testPayload(7)}
+		func() {
+			defer func() {
+				if r := recover(); r != nil {
+					obs.PriorErr = fmt.Sprint(r)
+				}
+			}()
+			if _, err := env.Sign(&prior); err != nil {
+				obs.PriorErr = err.Error()
+			}
+		}()
+		nt.dropPendingExcept(x, obs.XRetry)
 	}
 	obs.TStart = time.Now()
 	func() {
@@ -477,6 +521,10 @@ func evalC15(sc *c15Scenario, obs *c15Obs, rc *ruleCtx) {
 	if obs.Panicked {
 		rc.fail("C15.T3", "panic", "Sign panicked: "+fmt.Sprint(obs.PanicVal)+" ("+desc+")")
 		return
+	}
+	if obs.XRetry != nil && obs.XRetry.Rec.Begun {
+		rc.anteTrue("C15.T3")
+		rc.fail("C15.T3", "second_request_after_rejection", "the authority rejected the request and the library sent it a second, different request instead of failing ("+desc+")")
 	}
 	ok := obs.Err == nil
 	if ok && len(obs.Bytes) == 0 {
@@ -628,7 +676,7 @@ func describeC15(sc *c15Scenario) any {
 	w := sc.Rev.Worlds[0]
 	return map[string]any{"format": []string{"jws", "cose"}[sc.Format], "key": sc.KeyKind, "remote_signer": sc.Remote, "scheme": []string{"notary.x509", "notary.x509.signingAuthority"}[sc.Scheme],
 		"timestamper": !sc.NoTimestamp, "tsa_behaviour": tsaBehaviourNames[sc.Behaviour], "tsa_http_fault": sc.Fault.String(), "tsa_latency_ms": sc.Latency.Milliseconds(), "tsa_clock_skew_s": sc.GenSkew.Seconds(),
-		"tsa_timeout_ms": sc.Timeout.Milliseconds(), "cancel": sc.Cancel, "cancel_ms": sc.CancelMs, "tsa_chain_len": len(w.Certs), "tsa_chain_defect": tsaDefectNames[w.TSADefect], "caller_roots_nil": sc.RootsNil, "host_store_trusts_tsa_root": w.UseSysRoot,
+		"tsa_timeout_ms": sc.Timeout.Milliseconds(), "cancel": sc.Cancel, "cancel_ms": sc.CancelMs, "tsa_chain_len": len(w.Certs), "tsa_chain_defect": tsaDefectNames[w.TSADefect], "object_signed_before_with_timestamp": sc.PriorSign, "stub_validator_latency_ms": sc.StubLatency.Milliseconds(), "caller_roots_nil": sc.RootsNil, "host_store_trusts_tsa_root": w.UseSysRoot,
 		"revocation_mode": []string{"none", "stub_vector", "real_validator"}[sc.RevMode], "stub_vector": sc.StubVec, "stub_error": sc.StubErr, "tsa_chain_sources": describeRev(sc.Rev)}
 }
 
@@ -700,6 +748,10 @@ func tsaServeSkew(behaviour int, tsaLeaf *Cert, embed []*x509.Certificate, other
 		switch behaviour {
 		case TBGrantedWithMods:
 			ts.Status = 1
+		case TBRejectBadAlgThenGrant:
+			if x.Attempt == 0 || (x.Attempt == 1 && x.Prior) {
+				ts.Status, ts.FailBadAlg = 2, true
+			}
 		case TBRejection, TBWaiting, TBRevocationWarning, TBRevocationNotification:
 			ts.Status = 2 + (behaviour - TBRejection)
 		case TBNoToken:
